@@ -445,3 +445,25 @@ Proof.
   split; [intros kv u [<-|[]] E; vm_compute in E; injection E as <-; vm_compute; intuition discriminate|].
   split; [left; reflexivity|vm_compute; reflexivity].
 Qed.
+
+(* the re-read top-level variants are keyed by their UIDs, each key once *)
+Lemma rfold_keys t vids : forall acc res, fold_left (rstep t) vids (Ok acc) = Ok res ->
+  NoDup (map fst acc) -> (forall k v, In (k, v) acc -> k = fmt_s (getf (tv_fields v) (F"uid"))) ->
+  NoDup (map fst res) /\ (forall k v, In (k, v) res -> k = fmt_s (getf (tv_fields v) (F"uid"))).
+Proof.
+  induction vids as [|vid vids IH]; intros acc res H Hn Hk.
+  - cbn in H. injection H as <-. split; assumption.
+  - cbn [fold_left] in H. destruct (rstep t (Ok acc) vid) as [acc1|e] eqn:E; [|rewrite rfold_err in H; discriminate].
+    apply (IH acc1 res H); unfold rstep in E; cbn [bind] in E; inv_bind E as v0 Gd; inv_bind E as u Gv; cbv zeta in E;
+      destruct (assoc (fmt_s (getf (tv_fields v0) (F"uid"))) acc) eqn:Ea; try discriminate; injection E as <-.
+    + rewrite map_app. cbn [map fst]. apply (Permutation.Permutation_NoDup (Permutation.Permutation_cons_append (map fst acc) _)).
+      constructor; [apply assoc_None in Ea; exact Ea|exact Hn].
+    + intros k v Hin. apply in_app_or in Hin. destruct Hin as [Ha|[Ek|[]]]; [exact (Hk k v Ha)|]. injection Ek as <- <-. reflexivity.
+Qed.
+
+Theorem reread_variants_keyed_by_uid x mv t x' : ser_ti x mv = Ok t -> deser_ti t = Ok x' ->
+  NoDup (map fst (ti_variants x')) /\ (forall k v, In (k, v) (ti_variants x') -> k = fmt_s (getf (tv_fields v) (F"uid"))).
+Proof.
+  intros Hw Hr. destruct (reader_variants_stage x mv t x' Hw Hr) as (vids & _ & Gr).
+  apply (rfold_keys t vids [] _ Gr); [constructor|intros k v []].
+Qed.
